@@ -43,6 +43,18 @@ def subst(expr, env):
     return _Sub(env).visit(clone(expr))
 
 
+_MUTATORS = {"append", "extend", "insert", "update", "add", "setdefault", "pop", "remove", "clear", "sort", "reverse", "fill", "put"}
+
+
+def _mutated_name(x):
+    """The local a node edits in place: `nm.append(..)`, `nm[k] = ..`, `nm[k] += ..`."""
+    if isinstance(x, ast.Call) and isinstance(x.func, ast.Attribute) and isinstance(x.func.value, ast.Name) and x.func.attr in _MUTATORS:
+        return x.func.value.id
+    if isinstance(x, ast.Subscript) and isinstance(x.ctx, ast.Store) and isinstance(x.value, ast.Name):
+        return x.value.id
+    return None
+
+
 class SymWalker:
     """facts(test_node_after_substitution) -> True / False / None decides scenario-specific atoms;
     bind_loop(for_stmt, env) -> dict of bindings for one representative iteration, or None (loop is not walked);
@@ -263,12 +275,25 @@ class SymWalker:
             elif isinstance(st, ast.AugAssign) and isinstance(st.target, ast.Name):
                 cur = env.get(st.target.id, ast.Name(id=st.target.id, ctx=ast.Load()))
                 env[st.target.id] = ast.BinOp(left=cur, op=st.op, right=walker.value(st.value, env, depth))
-            elif isinstance(st, ast.For):
-                b = walker.bind_loop(st, env)
+            elif isinstance(st, (ast.For, ast.While)):
+                b = walker.bind_loop(st, env) if isinstance(st, ast.For) else None
                 if b:
                     env.update(b)
+                else:
+                    # a loop this walk does not enter: whatever it assigns or fills is no longer what the walk knows
+                    for x in ast.walk(st):
+                        if isinstance(x, ast.Name) and isinstance(x.ctx, ast.Store):
+                            env[x.id] = ast.Name(id=f"LOOPVALUE_{x.id}", ctx=ast.Load())
+                        nm = _mutated_name(x)
+                        if nm is not None:
+                            env[nm] = ast.Name(id=f"LOOPVALUE_{nm}", ctx=ast.Load())
             elif isinstance(st, ast.Return):
                 state["ret"] = walker.value(st.value, env, depth) if st.value is not None else NONE
+            else:
+                for x in ast.walk(st):
+                    nm = _mutated_name(x)
+                    if nm is not None and nm in env:
+                        env[nm] = ast.Name(id=f"EDITED_{nm}", ctx=ast.Load())
 
         def expand(st, state):
             return isinstance(st, ast.For) and walker.bind_loop(st, state["env"]) is not None
